@@ -234,6 +234,9 @@ func RunWithOptions(src string, oo ...core.Option) (res Result) {
 	return runWith(Single(src), "", oo)
 }
 
+// FixedSeedOption is the option that makes regex-derived examples repeatable.
+func FixedSeedOption() core.Option { return core.WithFixedSeedForRegex() }
+
 // BanOption builds one WithBannedDirectives option value from kind names.
 func BanOption(kinds ...string) core.Option {
 	var dd []directive.Enumeration
